@@ -225,7 +225,10 @@ func genC12Wired(t *rapid.T) C12WCase {
 		if rapid.IntRange(0, 3).Draw(t, "tmerge") > 0 {
 			c.Ops = append(c.Ops, C12WOp{Kind: "merge", Inst: i, From: j, Old: tOld})
 		}
-		switch rapid.IntRange(0, 4).Draw(t, "tupload") {
+		switch rapid.IntRange(0, 5).Draw(t, "tupload") {
+		case 5:
+			// nothing is uploaded, but the same snapshot arrives once more (a merge that changes nothing)
+			c.Ops = append(c.Ops, C12WOp{Kind: "merge", Inst: i, From: j}, C12WOp{Kind: "merge", Inst: i, From: j})
 		case 0:
 		case 1:
 			// the upload after the merge fails on every attempt: the merge is not "followed by an upload"
